@@ -24,9 +24,35 @@ CLAIMED = {
         technique="Kani/CBMC SAT over the compiled crate",
         ref="DESIGN.md section 5 C03"),
     "C04": dict(
-        text="Kani decides the modifier-bit decoding for all 256 modifier bytes (AltGr bit selects the plane).",
-        technique="Kani/CBMC SAT over the compiled crate",
+        text="Symbolic execution of the fixed method's key entry point from rustc MIR with key code (2^16), modifier byte (2^8) and "
+             "the number-pad option symbolic and the layout file an oracle (consulted entry absent / empty / any 1-2 code points): z3 "
+             "decides on every path that exactly the entry named by the key-name table is consulted and exactly its text is composed; "
+             "Kani cross-checks the modifier decoding. Every path witness is replayed natively.",
+        technique="symbolic execution of rustc MIR with z3 (bounded model checking) + Kani/CBMC kernel",
         ref="DESIGN.md section 5 C04"),
+    "C06": dict(
+        text="One inductive step per event (key, key without value, backspace with symbolic ctrl, commit, finish) of the fixed method from "
+             "an arbitrary pre-state satisfying a stated reachable-state invariant, executed symbolically from MIR; z3 decides that "
+             "terminating events leave the freshly-constructed composition state, the flag equals the state, backspace makes progress, "
+             "stale scratch candidates are unobservable, and the invariant is preserved. Counterexamples are re-found on API-reachable states.",
+        technique="symbolic execution of rustc MIR with z3, inductive invariant step",
+        ref="DESIGN.md section 5 C06"),
+    "C12": dict(
+        text="One key from any composed text (all Unicode scalar values symbolic) with any key value under all 16 helper settings, executed "
+             "symbolically from MIR; z3 decides equality with an ordered rule list written from the property text (numeric Unicode classes).",
+        technique="symbolic execution of rustc MIR with z3 against a reference rule table",
+        ref="DESIGN.md section 5 C12"),
+    "C13": dict(
+        text="Reph key from any composed text (all scalar values symbolic): z3 decides conservation for every text within the length bound and "
+             "placement for every text matching the syllable grammar; option off appends.",
+        technique="symbolic execution of rustc MIR with z3 against a syllable-grammar reference",
+        ref="DESIGN.md section 5 C13"),
+    "C14": dict(
+        text="Paired key histories from idle (typewriter order with the option on vs Unicode order with it off) over complete syllable "
+             "templates with class-constrained symbolic letters and all 16 settings of the other helpers; z3 decides equality of the final texts "
+             "and the pending-sign clauses.",
+        technique="symbolic execution of rustc MIR with z3 (paired histories)",
+        ref="DESIGN.md section 5 C14"),
     "C07": dict(
         text="Kani runs the real slice::sort over symbolic Rank values from the producible domain and decides the ordering clauses "
              "(First first, dictionary distances non-decreasing, transliteration/English last, no emoji before a distance-0 word, stability).",
@@ -46,14 +72,10 @@ CLAIMED = {
 NOT_YET = {
     "C02": "check under construction (MIR executor obligations phonetic_key_consistent / fixed_list_consistent); not claimed until it runs",
     "C05": "check under construction (memo transparency step on the MIR executor); not claimed until it runs",
-    "C06": "check under construction (terminating events restore the fresh state, MIR executor); not claimed until it runs",
     "C08": "check under construction (suffix join completeness on the MIR executor); not claimed until it runs",
     "C09": "check under construction (learned-choice round trip on the MIR executor); not claimed until it runs",
     "C10": "check under construction (fault oracles for user files on the MIR executor); not claimed until it runs",
     "C11": "check under construction (reload equivalence on the MIR executor); not claimed until it runs",
-    "C12": "check under construction (one-key rule table on the MIR executor); not claimed until it runs",
-    "C13": "check under construction (reph conservation/placement on the MIR executor); not claimed until it runs",
-    "C14": "check under construction (typewriter vs Unicode order on the MIR executor); not claimed until it runs",
     "C15": "check under construction (fixed suggestion assembly on the MIR executor); not claimed until it runs",
     "C17": "check under construction (smart-quote kernel and pairing on the MIR executor); not claimed until it runs",
     "C18": "check under construction (emoji assembly on the MIR executor); not claimed until it runs",
@@ -79,10 +101,10 @@ def main():
         version=1,
         setup_cmd="./setup.sh",
         hooks=dict(
-            guard="cfg(kani)",
-            enable="cargo kani sets cfg(kani); RITI_VERIF_KANI=<staging dir> names the directory of the included harness file",
+            guard="cfg(kani) for the Kani harness include; cfg(riti_verif) for the state dump/plant methods used by the native replay driver",
+            enable="cargo kani sets cfg(kani), RITI_VERIF_KANI=<staging dir> names the directory of the included harness file; the replay driver is built with RUSTFLAGS=--cfg riti_verif",
             baseline_off_cmd="cd /repo && cargo test --workspace --no-fail-fast --offline",
-            source_commits=["8aaf6ef"],
+            source_commits=["8aaf6ef", "b3ec2e9"],
             add_only=True,
         ),
         engines=[
